@@ -166,6 +166,15 @@ def main(tier, seed):
                                "e%d" % (i + 1)])
     for vi, (name, exe, extra) in enumerate(variants):
         jobs.append((w_hist, (exe, dup, dprogs, extra, "near-duplicates")))
+    # the caller installs callbacks of its own in the public fields ('k'); every later successful set-up wires the confirmed mode again
+    kprogs = []
+    for m1 in range(4):
+        for m2 in range(4):
+            for i in range(len(HM.POOL7)):
+                kprogs.append(["r%d" % m1, "s", "e0", "k", "r%d" % m2, "s", "e%d" % i, "m"])
+                kprogs.append(["k", "r%d" % m2, "s", "e%d" % i, "r%d" % m1, "s", "k", "r%d" % m1, "s", "e%d" % i])
+    for vi, (name, exe, extra) in enumerate(variants):
+        jobs.append((w_hist, (exe, HM.POOL7, kprogs, extra, "caller-callbacks", cold if not extra else None)))
     # one object, 66 000 validations in a row (a call counter of 8 or 16 bits wraps, per-call growth adds up: the ledger is read after every
     # call), with a settings change and an errstr now and then
     n_long = 66000 if tier == "quick" else 140000
